@@ -3,6 +3,7 @@ import json
 import struct
 
 import common as C
+import srctie
 
 INTERNAL = {"_retries": 0, "max_retries": 1, "retry_on_error": 2, "X-Taskiq-requeue": 3, "timeout": 4}
 COUNTERS = ("_retries", "X-Taskiq-requeue")
@@ -1103,6 +1104,11 @@ def corpus_cases():
 def run(ctx):
     rep = C.Report(ctx, META)
     rep.add_obligations(C.proof_obligations("C09"))
+    # source tie: LabelType / _LABEL_PARSERS / prepare_label / parse_label / TaskiqMessage.parse_labels re-translated from
+    # the source text; srcproofs/Src_labels_C09.v re-checked
+    src_obs, src_info = srctie.obligations(ctx, "labels", "C09")
+    rep.add_obligations(src_obs)
+    rep.extra["source_tie"] = src_info
     cc = corpus_cases()
     if cc:
         explore(ctx, rep, [c for _, c in cc], "corpus")
